@@ -29,6 +29,8 @@ type c05World struct {
 	tls   bool
 	node  *env.AuthNode
 	n     int
+	// connID, when set, is the Rdg-Connection-Id the next requests carry
+	connID string
 }
 
 func (w *c05World) has(m string) bool {
@@ -45,6 +47,9 @@ func (w *c05World) has(m string) bool {
 func (w *c05World) request(method string, auths []string, from string) *env.HTTPResult {
 	w.n++
 	hdr := [][2]string{{"Rdg-Connection-Id", fmt.Sprintf("{C05-%d}", w.n)}}
+	if w.connID != "" {
+		hdr[0][1] = w.connID
+	}
 	for _, a := range auths {
 		hdr = append(hdr, [2]string{"Authorization", a})
 	}
@@ -101,7 +106,18 @@ func runC05(c *Ctx) {
 	w.mechs = c05Subsets[int(c.Res.Seed)%len(c05Subsets)]
 	w.tls = w.has("local")
 	cfg := env.BaseConfig()
-	cfg.Authentication = w.mechs
+	// as written in the configuration: any order, and "basic" is an accepted spelling of "local"
+	spelled := append([]string{}, w.mechs...)
+	for i := len(spelled) - 1; i > 0; i-- {
+		j := c.T.Choose(i + 1)
+		spelled[i], spelled[j] = spelled[j], spelled[i]
+	}
+	for i, m := range spelled {
+		if m == "local" && c.T.Bool(1, 3) {
+			spelled[i] = "basic"
+		}
+	}
+	cfg.Authentication = spelled
 	cfg.Hosts = []string{"{{ preferred_username }}.desk.test:3389", "host-a.test:3389"}
 	if !w.has("openid") {
 		cfg.TokenAuth = env.Bool(false)
@@ -373,8 +389,12 @@ func runC05(c *Ctx) {
 					return
 				}
 				e1.Opaque, e1.Peer.Opaque = true, true
+				// (the second connection may quote the first one's connection id, as the IN
+				// channel of a legacy pair does)
+				sameID := c.T.Bool(1, 2)
+				xid := fmt.Sprintf("{C05X-%d}", w.n)
 				mk := func(auth string) []byte {
-					return []byte("RDG_OUT_DATA /remoteDesktopGateway/ HTTP/1.1\r\nHost: gw.test\r\nRdg-Connection-Id: {X}\r\nAuthorization: NTLM " + auth + "\r\n\r\n")
+					return []byte("RDG_OUT_DATA /remoteDesktopGateway/ HTTP/1.1\r\nHost: gw.test\r\nRdg-Connection-Id: " + xid + "\r\nAuthorization: NTLM " + auth + "\r\n\r\n")
 				}
 				e1.Send(mk(b64(codec.NTLMNegotiate())))
 				c.S.Run(func() bool { h, _ := codec.ParseHead(e1.Recv); return h != nil || e1.EOFSeen }, 6000, 20*time.Second)
@@ -394,7 +414,36 @@ func runC05(c *Ctx) {
 					}
 				} else {
 					nt, lm, sbk := codec.NTLMv2Response("alice", "correct horse", "", ch.ServerChallenge, []byte("clntchal"), ch.TargetInfo, time.Now())
+					flood := c.T.Bool(1, 12)
+					if flood {
+						// many other clients start exchanges they never finish
+						what = "ntlm-exchange-while-1100-others-are-parked"
+						for k := 0; k < 1100 && c.S.Viol == nil; k++ {
+							w.request("RDG_OUT_DATA", []string{"NTLM " + b64(codec.NTLMNegotiate())}, fmt.Sprintf("10.7.%d.%d:%d", k/250, 1+k%250, 20000+k))
+						}
+						c.S.Count("probe.ntlm_flood")
+						// then the first client answers its challenge on its own connection
+						e1.Recv = nil
+						e1.Send(mk(b64(codec.NTLMAuthenticate("alice", "", "WS", nt, lm, sbk))))
+						c.S.Run(func() bool { h, _ := codec.ParseHead(e1.Recv); return h != nil || e1.EOFSeen }, 6000, 20*time.Second)
+						st := 0
+						if h, _ := codec.ParseHead(e1.Recv); h != nil {
+							st = h.Status
+						}
+						log = append(log, fmt.Sprintf("%s%s->%d", what, fault, st))
+						if fault == "" && st != 101 && st != 200 {
+							c.S.Fail("C05", "good-credentials-refused", "auth=%v %s: the client answered the challenge it was given, on the same connection, within seconds, and got %d", w.mechs, what, st)
+						}
+						e1.Shut()
+						r = nil
+						break
+					}
+					if sameID {
+						w.connID = xid
+						what += "(quoting its connection id)"
+					}
 					r = w.request("RDG_OUT_DATA", []string{"NTLM " + b64(codec.NTLMAuthenticate("alice", "", "WS", nt, lm, sbk))}, ip+":47002")
+					w.connID = ""
 					method = "RDG_OUT_DATA"
 					expectReached = false
 				}
